@@ -8,8 +8,10 @@
                    invariants say that it always decides like JwtVerdict and that no reachable
                    history changes the verdict of any token of the case set.  The same run
                    prints every maximal sequence for replay on the real middleware.
-   other modes   : enumerate a case set (every valid credential, every single-field mutation
-                   of one, two-field mutations, full products) and print each case once;
+   other modes   : enumerate a case set (every valid credential -- for signed requests with the body
+                   length announced and not announced --, every single-field mutation of one incl. every
+                   class of private claim names, two-field mutations, full products; "csCc": the requests of
+                   finding KF_CsChunkedCipher, kept apart from all other sets) and print each case once;
                    the invariant checked is that the verdict function is total and, for
                    single-field mutations of a valid credential, what the statement demands. *)
 EXTENDS Gates, Json
@@ -27,9 +29,11 @@ JBase == [alg |-> "HS256", key |-> "cur", exp |-> "future", nbf |-> "past", iat 
 
 WellTyped(t) == t.alg \in PkAlgs => t.key = "other"     \* the key field means nothing for RS256/ES256
 
+\* (bases carry the ordinary claim sets; JMut1 takes each base to every other claim set, i.e. every
+\*  name class of Gates!ClaimSets rides on every valid base; JClaimCases: every claim set x algorithm x secret)
 JValidBasesAll ==
   [alg : HmacAlgs, key : {"cur", "prev"}, exp : {"absent", "future"}, nbf : {"absent", "past", "now"},
-   iat : {"absent", "past", "now"}, shape : {"ok"}, claims : ClaimSets]
+   iat : {"absent", "past", "now"}, shape : {"ok"}, claims : {"none", "A", "B"}]
 JValidBasesQuick ==
   [alg : {"HS256", "HS512"}, key : {"cur", "prev"}, exp : {"absent", "future"}, nbf : {"absent", "now"},
    iat : {"past"}, shape : {"ok"}, claims : {"A", "none"}]
@@ -45,8 +49,10 @@ JMut1(b) ==
 \* field changes from a valid token: the algorithm and the signature)
 JAlgKeyCases == [alg : Algs, key : JKeys, exp : {"future"}, nbf : {"past"}, iat : {"past"},
                  shape : {"ok", "sigEmpty", "noPrefix"}, claims : {"A"}]
+JClaimCases == [alg : HmacAlgs, key : {"cur", "prev", "other"}, exp : {"absent", "future"}, nbf : {"past"}, iat : {"past"},
+                 shape : {"ok", "noPrefix"}, claims : ClaimSets]
 JMutCases == IF Mode = "jwtMut" \/ Mode = "seq"
-  THEN {t \in JValidBases \cup UNION {JMut1(b) : b \in JValidBases} \cup JAlgKeyCases : WellTyped(t)}
+  THEN {t \in JValidBases \cup UNION {JMut1(b) : b \in JValidBases} \cup JAlgKeyCases \cup JClaimCases : WellTyped(t)}
   ELSE {}
 JMut2Bases == {JBase, [JBase EXCEPT !.key = "prev", !.alg = "HS384", !.exp = "absent"]}
 JMut2Cases == IF Mode = "jwtMut2"
@@ -69,19 +75,29 @@ JCases == CASE Mode = "jwtMut"  -> JMutCases
 CBase == [hdr |-> "present", fp |-> "A", encTo |-> "A", swf |-> "ok", type |-> "plain", ts |-> "in",
           method |-> "POST", path |-> "p0", query |-> "q0", body |-> "b0",
           sform |-> "ok", sts |-> "in", smethod |-> "POST", spath |-> "p0", squery |-> "q0", sbody |-> "b0",
-          plen |-> 17, rlen |-> 16, chunks |-> 1]
+          plen |-> 17, rlen |-> 16, chunks |-> 1, xfer |-> "sized"]
 
 CMk(fp, ty, ts, m, q, b) ==
   [CBase EXCEPT !.fp = fp, !.encTo = fp, !.type = ty, !.ts = ts, !.sts = ts, !.method = m, !.smethod = m,
                 !.query = q, !.squery = q, !.body = b, !.sbody = b]
 
-CValidBases ==
+CChunked(r) == [r EXCEPT !.xfer = "chunked"]
+
+\* valid requests whose body length is announced ...
+CSizedBases ==
   IF Size = "quick"
     THEN {CMk(fp, ty, "in", m, q, b) : fp \in {"A"}, ty \in {"plain", "enc"}, m \in VerifiedMethods,
                                          q \in {"q0"}, b \in {"none", "b0"}}
            \cup {CMk("B", "enc", ts, "PUT", "none", "b0") : ts \in InWindow}
     ELSE {CMk(fp, ty, ts, m, q, b) : fp \in {"A", "B"}, ty \in {"plain", "enc"}, ts \in InWindow,
                                        m \in VerifiedMethods, q \in {"none", "q0"}, b \in {"none", "b0"}}
+\* ... and valid requests whose body (present or empty) arrives without an announced length
+CChunkedBases ==
+  IF Size = "quick"
+    THEN {CChunked(CMk("A", ty, "in", m, "q0", b)) : ty \in {"plain", "enc"}, m \in {"POST", "GET"}, b \in {"none", "b0"}}
+    ELSE {CChunked(CMk(fp, ty, "in", m, q, b)) : fp \in {"A", "B"}, ty \in {"plain", "enc"}, m \in VerifiedMethods,
+                                                  q \in {"none", "q0"}, b \in {"none", "b0"}}
+CValidBases == CSizedBases \cup CChunkedBases
 
 CMut1(b) ==
   {[b EXCEPT !.hdr = x] : x \in {"present", "missing"} \ {b.hdr}} \cup
@@ -92,7 +108,8 @@ CMut1(b) ==
   {[b EXCEPT !.body = x] : x \in Bodies \ {b.body}} \cup {[b EXCEPT !.sform = x] : x \in SigForms \ {b.sform}} \cup
   {[b EXCEPT !.sts = x] : x \in TsVals \ {b.sts}} \cup {[b EXCEPT !.smethod = x] : x \in Methods \ {b.smethod}} \cup
   {[b EXCEPT !.spath = x] : x \in Paths \ {b.spath}} \cup {[b EXCEPT !.squery = x] : x \in Queries \ {b.squery}} \cup
-  {[b EXCEPT !.sbody = x] : x \in Bodies \ {b.sbody}}
+  {[b EXCEPT !.sbody = x] : x \in Bodies \ {b.sbody}} \cup
+  {[b EXCEPT !.xfer = x] : x \in Xfers \ {b.xfer}}
 
 \* requests on methods the handler does not verify, correctly signed, no body (they pass)
 CUnverifiedValid == {CMk("A", "plain", "in", m, "q0", "none") : m \in Methods \ VerifiedMethods}
@@ -104,15 +121,21 @@ CPairCases ==
   {CMk("A", ty, ts, "POST", "q0", "b0") : ty \in {"plain", "enc"}, ts \in TsVals} \cup
   {CMk("B", "plain", ts, "GET", "none", "none") : ts \in TsVals} \cup
   {[CBase EXCEPT !.fp = fp, !.encTo = en, !.type = ty] : fp \in Fps, en \in EncTos, ty \in {"plain", "enc"}} \cup
-  {[CMk("A", ty, "in", "PUT", q, b) EXCEPT !.path = pa, !.spath = pa] :
-       ty \in {"plain", "enc"}, q \in Queries, b \in Bodies, pa \in Paths}
+  {[CMk("A", ty, "in", "PUT", q, b) EXCEPT !.path = pa, !.spath = pa, !.xfer = x] :
+       ty \in {"plain", "enc"}, q \in Queries, b \in Bodies, pa \in Paths, x \in Xfers} \cup
+  {CChunked(CMk("A", ty, ts, "POST", "q0", "b0")) : ty \in {"plain", "enc"}, ts \in TsVals}
 
-CMutCases  == IF Mode = "csMut"
+\* The case sets below leave out the requests the finding KF_CsChunkedCipher is about (Gates!ChunkedCipher:
+\* properly signed, encrypted body of unannounced length); Mode "csCc" enumerates exactly those, and the runner
+\* uses that set according to the status of the finding.
+CMutAll    == IF Mode = "csMut" \/ Mode = "csCc"
   THEN CValidBases \cup UNION {CMut1(b) : b \in CValidBases} \cup CUnverifiedValid \cup CPairCases
   ELSE {}
-CMut2Bases == {CBase, CMk("B", "enc", "inHi", "PUT", "none", "b0"), CMk("A", "enc", "in", "GET", "q0", "none")}
+CMutCases  == {r \in CMutAll : ~ChunkedCipher(r)}
+CMut2Bases == {CBase, CMk("B", "enc", "inHi", "PUT", "none", "b0"), CMk("A", "enc", "in", "GET", "q0", "none"),
+               CChunked(CMk("A", "plain", "in2", "POST", "q0", "b0"))}
 CMut2Cases == IF Mode = "csMut2"
-  THEN UNION {CMut1(m) : m \in UNION {CMut1(b) : b \in CMut2Bases}}
+  THEN {r \in UNION {CMut1(m) : m \in UNION {CMut1(b) : b \in CMut2Bases}} : ~ChunkedCipher(r)}
   ELSE {}
 \* the encryption round trip: every request payload length x response payload length
 CRtCases ==
@@ -120,12 +143,21 @@ CRtCases ==
   THEN {[CMk(fp, "enc", "in", m, "q0", "b0") EXCEPT !.plen = pl, !.rlen = rl, !.chunks = ch] :
        fp \in {"A", "B"}, m \in IF Size = "quick" THEN {"POST"} ELSE VerifiedMethods, pl \in Lens, rl \in Lens,
        ch \in {1, 2}}
-    \cup {[CMk("A", "plain", "in", "POST", "q0", "b0") EXCEPT !.plen = pl, !.rlen = rl] : pl \in Lens, rl \in Lens}
+    \cup {[CMk("A", "plain", "in", "POST", "q0", "b0") EXCEPT !.plen = pl, !.rlen = rl, !.xfer = x] :
+             pl \in Lens, rl \in Lens, x \in Xfers}
+  ELSE {}
+\* the requests of the finding: those among the mutation set, and the round trip over every length pair
+CCcCases ==
+  IF Mode = "csCc"
+  THEN {r \in CMutAll : ChunkedCipher(r)}
+    \cup {[CChunked(CMk(fp, "enc", "in", "POST", "q0", "b0")) EXCEPT !.plen = pl, !.rlen = rl] :
+             fp \in {"A", "B"}, pl \in Lens, rl \in Lens}
   ELSE {}
 
 CCases == CASE Mode = "csMut"  -> CMutCases
             [] Mode = "csMut2" -> CMut2Cases
             [] Mode = "csRt"   -> CRtCases
+            [] Mode = "csCc"   -> CCcCases
             [] OTHER -> {}
 
 (* ------------------------------- the machine --------------------------- *)
@@ -165,11 +197,18 @@ JwtCaseSane ==
      /\ JwtVerdict(g, TRUE) \in {"yes", "no", "either"} /\ JwtVerdict(g, FALSE) \in {"yes", "no", "either"}
      /\ g \in JValidBases => JwtVerdict(g, TRUE) = "yes" /\ (JwtVerdict(g, FALSE) = "yes") = (g.key = "cur")
      /\ JwtVerdict(g, FALSE) = "yes" => JwtVerdict(g, TRUE) = "yes"
+     \* which claims a token carries never decides whether the handler runs, and every claim set but
+     \* "none" has a private claim for the handler to see
+     /\ \A c \in ClaimSets : /\ JwtVerdict([g EXCEPT !.claims = c], TRUE) = JwtVerdict(g, TRUE)
+                             /\ (c # "none" => ClassesOf(c) # {} /\ ClassesOf(c) \subseteq NameClasses)
 CsCaseSane ==
-  Mode \in {"csMut", "csMut2", "csRt"} =>
+  Mode \in {"csMut", "csMut2", "csRt", "csCc"} =>
      /\ CsVerdict(g) \in {"yes", "no", "either"}
      /\ g \in CValidBases \cup CRtCases \cup CUnverifiedValid => CsVerdict(g) = "yes"
      /\ CsVerdict(g) # "no" => Signed(g) = Actual(g)
+     \* how the body length is announced never decides; the finding's cases are in their own set
+     /\ \A x \in Xfers : CsVerdict([g EXCEPT !.xfer = x]) = CsVerdict(g)
+     /\ ChunkedCipher(g) = (Mode = "csCc")
 
 \* model checking: the operation history is hidden but for its length (one state per parser
 \* state and depth, so the bound on the length cuts every path at the same place);
